@@ -208,13 +208,16 @@ def generate_id_violations(prefix: str, capacity: int = 8) -> list:
     return out
 
 
-def closest_violations(t: Table, buckets: list, targets: list, kmax: int, stats: dict | None = None) -> list:
+ALL_K = tuple(range(1, 21))
+
+
+def closest_violations(t: Table, buckets: list, targets: list, kset, stats: dict | None = None) -> list:  # noqa: ANN001
     out = []
     nodes = ref.all_nodes(buckets)
     live = [n for n in nodes if not ref.is_bad(n[3])]
     key_of = {n[1]: n[2] for n in nodes}
     bad_ids = {n[1] for n in nodes if ref.is_bad(n[3])}
-    ks = range(1, min(kmax, len(live) + 1) + 1)
+    ks = [k for k in kset if k <= len(live) + 1]  # larger k all give the same answer as k = live + 1
     for target in targets:
         tb = i2b(target)
         for k in ks:
@@ -244,22 +247,11 @@ def closest_violations(t: Table, buckets: list, targets: list, kmax: int, stats:
     return out
 
 
-def check_state(t: Table, op, obs, targets: list, kmax: int, stats: dict | None = None,  # noqa: ANN001
-                do_closest: bool = True) -> list:
-    """Everything the statement promises, evaluated on the table as it is now (after ``op``)."""
-    buckets = t.buckets()
-    out = ref.tree_violations(buckets, t.own)
+def check_transition(t: Table, op, obs, buckets: list) -> list:  # noqa: ANN001
+    """What one operation may do to the membership (kept deliberately weak: the statement fixes no eviction policy)."""
+    out = []
     after_ids = {n[1] for n in ref.all_nodes(buckets)}
-    kind = op[0] if op else "start"
-
-    # the table's own lookup must lead to the bucket in which the node sits
-    for node_id, places in t.node_objects().items():
-        for n, b in places:
-            if t.rt.get_bucket(i2b(node_id)) is not b:
-                out.append(("tree:lookup-misses-node", f"get_bucket({ref.bits(node_id)[:12]}..) is not the bucket "
-                                                       f"{b.prefix_id!r} that holds the node"))
-
-    # what an operation may do to the membership (kept deliberately weak: the statement fixes no eviction policy)
+    kind = op[0]
     if kind in ("add", "addreal"):
         new_id = h2i(op[1]) if kind == "add" else h2i(obs[0])
         ret = obs if kind == "add" else obs[1]
@@ -277,35 +269,55 @@ def check_state(t: Table, op, obs, targets: list, kmax: int, stats: dict | None 
             out.append(("remove_bad_nodes:wrong-report", f"removed {sorted(map(i2h, was_bad))} but reported {obs}"))
     elif kind == "fail" and after_ids != t.before_ids:
         out.append(("harness:fail-changed-membership", "marking a node bad changed the table"))
+    return out
 
+
+def check_state(t: Table, op, obs, targets: list, kset, stats: dict | None = None,  # noqa: ANN001
+                do_closest: bool = True) -> list:
+    """Everything the statement promises, evaluated on the table as it is now (after ``op``, if one is given)."""
+    buckets = t.buckets()
+    out = ref.tree_violations(buckets, t.own)
+
+    # the table's own lookup must lead to the bucket in which the node sits
+    for node_id, places in t.node_objects().items():
+        for _n, b in places:
+            if t.rt.get_bucket(i2b(node_id)) is not b:
+                out.append(("tree:lookup-misses-node", f"get_bucket({ref.bits(node_id)[:12]}..) is not the bucket "
+                                                       f"{b.prefix_id!r} that holds the node"))
+    if op is not None:
+        out.extend(check_transition(t, op, obs, buckets))
     if do_closest:
-        out.extend(closest_violations(t, buckets, targets, kmax, stats))
+        out.extend(closest_violations(t, buckets, targets, kset, stats))
     for b in buckets:
         out.extend(generate_id_violations(b[0], b[2]))
     if stats is not None:
         stats["max_depth"] = max(stats.get("max_depth", 0), max((len(b[0]) for b in buckets), default=0))
-        stats["max_nodes"] = max(stats.get("max_nodes", 0), len(after_ids))
+        stats["max_nodes"] = max(stats.get("max_nodes", 0), sum(len(b[3]) for b in buckets))
         stats["max_buckets"] = max(stats.get("max_buckets", 0), len(buckets))
     return out
 
 
-def run_script(script: dict, stats: dict | None = None, closest_every: int = 1) -> list:
+def run_script(script: dict, stats: dict | None = None, only_last: bool = False) -> list:
     """Execute a script; returns [(step, key, what)] for every step at which the oracle objects."""
     seams.reseed(("c14", 0))
     t = Table(h2i(script["own"]), script.get("capacity"))
     targets = [h2i(x) for x in script["targets"]]
-    kmax = script.get("kmax", 20)
+    kset = script.get("ks") or ALL_K
+    every = script.get("closest_every", 1)
+    start = script.get("check_from", 0)
     out = []
     ops = script["ops"]
     for step, op in enumerate(ops):
+        last = step == len(ops) - 1
         try:
             obs = t.apply(op)
         except Exception as e:  # noqa: BLE001
             out.append((step, f"exception:{type(e).__name__}:{op[0]}", f"{op!r} raised {type(e).__name__}: {e}"))
             break
-        do_closest = (step % closest_every == closest_every - 1) or step == len(ops) - 1
+        if (only_last and not last) or step < start:
+            continue
         try:
-            for key, what in check_state(t, op, obs, targets, kmax, stats, do_closest):
+            for key, what in check_state(t, op, obs, targets, kset, stats, last or step % every == every - 1):
                 out.append((step, key, what))
         except Exception as e:  # noqa: BLE001
             out.append((step, f"exception-in-query:{type(e).__name__}", f"after {op!r}: {type(e).__name__}: {e}"))
@@ -315,16 +327,28 @@ def run_script(script: dict, stats: dict | None = None, closest_every: int = 1) 
     return out
 
 
-def minimise(script: dict, key: str) -> dict:
-    """Greedy one-at-a-time removal of operations while the same violation class persists (replays are cheap)."""
+def minimise(script: dict, key: str, step: int | None = None) -> dict:
+    """Cut at the first failing step, keep one target and one k, then greedily drop operations while the same
+    violation class still shows at the last step (each trial is one cheap run with the oracle at the end only)."""
     def fails(s: dict) -> bool:
-        return any(k == key for _, k, _ in run_script(s))
+        return any(k == key for _, k, _ in run_script(s, only_last=True))
 
-    cur = dict(script)
-    hits = [st for st, k, _ in run_script(cur) if k == key]
-    if not hits:
+    cur = {k: v for k, v in script.items() if k not in ("check_from", "closest_every")}
+    if step is None:
+        hits = [st for st, k, _ in run_script(cur) if k == key]
+        if not hits:
+            return script
+        step = hits[0]
+    cur["ops"] = cur["ops"][:step + 1]
+    if not fails(cur):
         return script
-    cur["ops"] = cur["ops"][:hits[0] + 1]
+    if key.startswith("closest"):
+        for field, values in (("targets", [[x] for x in cur["targets"]]), ("ks", [[k] for k in cur.get("ks") or ALL_K])):
+            for v in values:
+                trial = dict(cur, **{field: v})
+                if fails(trial):
+                    cur = trial
+                    break
     changed = True
     while changed and len(cur["ops"]) > 1:
         changed = False
@@ -332,12 +356,6 @@ def minimise(script: dict, key: str) -> dict:
             trial = dict(cur, ops=cur["ops"][:i] + cur["ops"][i + 1:])
             if trial["ops"] and fails(trial):
                 cur, changed = trial, True
-    # fewest targets that still show it
-    for tgt in cur["targets"]:
-        trial = dict(cur, targets=[tgt])
-        if fails(trial):
-            cur = trial
-            break
     return cur
 
 
@@ -368,6 +386,8 @@ class Model(core.BfsModel):
         al += [("fail", i) for i in range(n)]
         al += [("rmbad",)]
         self.alphabet = al
+        self._memo: dict = {}
+        self.memo_misses = 0
 
     def params(self) -> dict:
         return {"w": self.w, "own_top": self.own_top, "low": self.low, "rtts": list(self.rtts), "seed": self.seed,
@@ -385,7 +405,7 @@ class Model(core.BfsModel):
 
     def script(self, events) -> dict:  # noqa: ANN001
         return {"own": i2h(self.own), "capacity": self.capacity, "ops": [self.lower(tuple(e)) for e in events],
-                "targets": [i2h(x) for x in self.targets], "kmax": 20}
+                "targets": [i2h(x) for x in self.targets]}
 
     def initial(self) -> Table:
         return Table(self.own, self.capacity)
@@ -419,27 +439,38 @@ class Model(core.BfsModel):
                      for path, pid, cap, nodes in t.buckets())
 
     def check(self, t: Table, hist, ev, obs) -> list:  # noqa: ANN001
-        return check_state(t, self.lower(ev), obs, self.targets, 20)
+        # The state-only part of the oracle (tree shape, lookups, closest_nodes, generate_id) is a function of the
+        # digest, so a worker evaluates it once per distinct state it meets; the transition part always runs.
+        d = core.digest(self.digest(t))
+        memo = self._memo
+        state_part = memo.get(d)
+        if state_part is None:
+            if len(memo) > 300_000:
+                memo.clear()
+            state_part = memo[d] = check_state(t, None, None, self.targets, ALL_K)
+            self.memo_misses += 1
+        return state_part + check_transition(t, self.lower(ev), obs, t.buckets())
 
 
 def bfs_configs(ctx: core.Ctx) -> list:
+    """(w, top bits of our id, low bits of node ids, rtt alphabet, seed, number of distinct keys[, capacity]), depth."""
     s = ctx.seed
     if ctx.thorough:
         return [
-            (Model(4, 0b1010, "own", (0, 1, 3), s, 12), 5),
-            (Model(4, 0b0000, "zero", (0, 1, 3), s, 12), 5),
-            (Model(4, 0b1111, "zero", (1, 3), s, 16), 6),
-            (Model(4, 0b1010, "zero", (1,), s, 16), 7),
-            (Model(5, 0b10101, "own", (1, 3), s, 20), 5),
-            (Model(5, 0b00000, "zero", (1,), s, 20), 6),
-            (Model(3, 0b101, "own", (0, 1, 3), s, 5), 7),
-            (Model(3, 0b111, "zero", (1, 3), s, 8, capacity=3), 7),
+            (Model(4, 0b1010, "own", (1, 3), s, 12), 4),
+            (Model(4, 0b0000, "zero", (0, 1, 3), s, 16), 3),
+            (Model(4, 0b1111, "zero", (1,), s, 16), 6),
+            (Model(4, 0b1010, "zero", (1,), s, 12), 6),
+            (Model(5, 0b10101, "own", (1,), s, 20), 4),
+            (Model(3, 0b101, "own", (0, 1, 3), s, 5), 5),
+            (Model(3, 0b111, "zero", (1, 3), s, 8, capacity=3), 5),
+            (Model(3, 0b000, "zero", (1,), s, 8), 8),
         ]
     return [
-        (Model(4, 0b1010, "own", (1, 3), s, 12), 4),
-        (Model(4, 0b0000, "zero", (0, 1, 3), s, 16), 4),
-        (Model(4, 0b1111, "zero", (1,), s, 16), 5),
-        (Model(3, 0b101, "own", (0, 1, 3), s, 5), 5),
+        (Model(4, 0b1010, "own", (1, 3), s, 12), 3),
+        (Model(3, 0b101, "own", (0, 1, 3), s, 5), 4),
+        (Model(4, 0b1111, "zero", (1,), s, 16), 4),
+        (Model(3, 0b000, "zero", (1,), s, 8), 6),
     ]
 
 
@@ -473,23 +504,29 @@ def family_script(own: int, shared: int, variant: str, order: str, low: str, n: 
             ops.append(["rmbad"])
     flips = [own ^ (1 << (159 - p)) for p in {0, max(shared - 1, 0), shared, min(shared + 3, 159), 159}]
     targets = sorted({own, 0, (1 << 160) - 1, *ids[::3], *flips})
-    return {"own": i2h(own), "capacity": None, "ops": ops, "targets": [i2h(x) for x in targets], "kmax": 20,
-            "label": f"family shared={shared} {variant} {order} low={low} n={n}"}
+    out = {"own": i2h(own), "capacity": None, "ops": ops, "targets": [i2h(x) for x in targets],
+           "label": f"family shared={shared} {variant} {order} low={low} n={n}"}
+    if shared > 24:
+        # closest_nodes costs O(depth^3) when fewer than k nodes are stored (0.25 s per call at depth 153): thin out
+        # the queries, not the histories; the tree predicates still run after every operation
+        out.update(ks=[1, 8, 20], closest_every=4 + shared // 8,
+                   targets=[i2h(x) for x in sorted({own, ids[0], own ^ (1 << (159 - shared))})])
+    return out
 
 
 def family_scripts(ctx: core.Ctx) -> list:
     own_low = own_low_bits(ctx.seed, 160)
     owns = [own_low & ~(0xF << 156) | (top << 156) for top in (0b1010, 0b0000, 0b1111)]
     out = []
+    shallow = list(range(25))
     if ctx.thorough:
-        shareds = list(range(0, 153))
-        orders = ("asc", "desc", "rev")
+        deep, orders = list(range(25, 153)), ("asc", "desc", "rev")
     else:
-        shareds = [*range(0, 25), 31, 32, 63, 64, 100, 152]
-        orders = ("asc", "rev")
-    for shared in shareds:
+        deep, orders = [32, 64, 152], ("asc", "rev")
+    for shared in shallow + deep:
         for vi, variant in enumerate(("sibling", "deeper")):
-            for oi, order in enumerate(orders):
+            # deep trees are expensive to query (see family_script): one insertion order each, rotating
+            for oi, order in enumerate(orders if shared <= 24 else orders[(shared + vi) % len(orders):][:1]):
                 own = owns[(shared + vi + oi) % 3]
                 low = "own" if (shared + oi) % 2 else "zero"
                 out.append(family_script(own, shared, variant, order, low, 40, ctx.seed))
@@ -519,8 +556,8 @@ def long_scripts(ctx: core.Ctx) -> list:
             if j % 50 == 49:
                 ops.append(["rmbad"])
         targets = sorted({own, *ids[::max(1, n // 24)], *[own ^ (1 << (159 - p)) for p in (0, 5, 20, 47, 60)]})
-        out.append({"own": i2h(own), "capacity": None, "ops": ops, "targets": [i2h(x) for x in targets], "kmax": 20,
-                    "closest_every": 25, "label": f"long n={n} own_top={top:04b}"})
+        out.append({"own": i2h(own), "capacity": None, "ops": ops, "targets": [i2h(x) for x in targets],
+                    "ks": [1, 2, 3, 8, 9, 19, 20], "closest_every": 25, "label": f"long n={n} own_top={top:04b}"})
     return out
 
 
@@ -543,7 +580,7 @@ def real_scripts(ctx: core.Ctx) -> list:
     out = []
     base_ids = [idof(k, ips[j]) for j, k in enumerate(others)]
     targets = sorted({own, *base_ids})
-    out.append({"own": i2h(own), "capacity": None, "ops": base, "targets": [i2h(x) for x in targets], "kmax": 20,
+    out.append({"own": i2h(own), "capacity": None, "ops": base, "targets": [i2h(x) for x in targets],
                 "label": "real Node class, distinct peers"})
     # one peer seen from a second IP address (its identifier changes with the address): both entries are nodes
     for m in (2, 8, len(base)) if not ctx.thorough else range(1, len(base) + 1):
@@ -552,7 +589,7 @@ def real_scripts(ctx: core.Ctx) -> list:
                 twin = idof(others[j], ip)
                 out.append({"own": i2h(own), "capacity": None,
                             "ops": [*base[:m], ["addreal", others[j], ip, 7100, 1]],
-                            "targets": [i2h(x) for x in sorted({own, twin, base_ids[j], *base_ids[:m:4]})], "kmax": 20,
+                            "targets": [i2h(x) for x in sorted({own, twin, base_ids[j], *base_ids[:m:4]})],
                             "check_from": m, "label": f"real Node class, peer {j} of {m} also seen from {ip}"})
     return out
 
@@ -581,12 +618,18 @@ def generate_sweep(ctx: core.Ctx) -> tuple:
 # run / replay
 # ------------------------------------------------------------------------------------------------
 
+def _cpu_now() -> float:
+    """CPU seconds of this process and its reaped workers (wall time on a shared box says little)."""
+    import os
+    x = os.times()
+    return x.user + x.system + x.children_user + x.children_system
+
+
 def _run_scripts(chunk: list) -> list:
     out = []
     for s in chunk:
         stats: dict = {}
-        res = run_script(s, stats, s.get("closest_every", 1))
-        res = [r for r in res if r[0] >= s.get("check_from", 0)]
+        res = run_script(s, stats)
         first: dict = {}
         for step, key, what in res:
             first.setdefault(key, (step, what))
@@ -602,10 +645,19 @@ def run(ctx: core.Ctx) -> core.Report:
         if key not in violations:
             violations[key] = core.Violation(key, what, replay)
 
+    cpu: dict = {}
+    mark = [_cpu_now()]
+
+    def phase(name: str) -> None:
+        now = _cpu_now()
+        cpu[name] = round(now - mark[0], 1)
+        mark[0] = now
+
     # 4 (first: cheapest, and its verdicts are cached for the per-state checks)
     gen_evals, gen_viol = generate_sweep(ctx)
     for key, what, rp in gen_viol:
         report(key, what, rp)
+    phase("generate_id")
 
     # 1
     states = transitions = outcomes = 0
@@ -625,9 +677,12 @@ def run(ctx: core.Ctx) -> core.Report:
             if v.key in violations:
                 continue
             script = model.script(v.replay["history"])
+            what = v.what
             if not v.key.startswith(("oracle-crash", "generate_id")):
                 script = minimise(script, v.key)
-            report(v.key, v.what, {"kind": "script", "world": model.params(), "history": v.replay["history"], **script})
+                what = next((w for _, k, w in run_script(script, only_last=True) if k == v.key), what)
+            report(v.key, what, {"kind": "script", "world": model.params(), **script})
+        phase(f"bfs{len(runs)}")
 
     # 2 + 3: deterministic scripts, oracle after every operation
     scripts = family_scripts(ctx) + real_scripts(ctx) + long_scripts(ctx)
@@ -642,18 +697,16 @@ def run(ctx: core.Ctx) -> core.Report:
         for key, (step, what) in sorted(first.items()):
             if key in violations or key.startswith("generate_id"):
                 continue
-            cut = dict(s, ops=s["ops"][:step + 1])
-            cut.pop("check_from", None)
-            cut.pop("closest_every", None)
-            cut = minimise(cut, key)
-            report(key, f"[{s['label']}] {what}", {"kind": "script", **cut})
+            report(key, f"[{s['label']}] {what}", {"kind": "script", **minimise(s, key, step)})
     samples.append(scripts[0]["ops"][:6])
+    phase("scripts")
 
     cov = {
         "states": states, "transitions": transitions,
         "traces_validated_against_impl": transitions + fam_stats["scripts"],
         "samples": samples, "exhaustive": exhaustive, "distinct_outcomes": outcomes, "runs": runs,
         "scripted_histories": fam_stats, "generate_id_evaluations": gen_evals,
+        "cpu_seconds_by_phase": cpu, "cpu_seconds": round(sum(cpu.values()), 1),
         "bounds": {"bfs": "capacity 2 (3 in one thorough world), ids = all 2^w top-bit patterns, low bits zero or ours; "
                           "events add(id, rtt) / update / fail / remove_bad_nodes; every target of the w-bit space "
                           "plus our own id, every k <= live+1",
